@@ -25,9 +25,10 @@ type WriterCfg struct {
 	InitLen  int    `json:"init_len"` // bytes writer: len of the initial slice
 	InitCap  int    `json:"init_cap"` // bytes writer: cap of the initial slice (-1 = nil slice)
 	Sizes    []int  `json:"sizes"`
-	Reverse  bool   `json:"reverse"`             // late regions are filled in reverse order of allocation
-	CoTenant int    `json:"co_tenant"`           // 0 off, 1 keep, 2 free again
-	PayPow2  bool   `json:"pay_pow2"`            // WriteBinary payloads live in buffers of power-of-two capacity
+	Reverse  bool   `json:"reverse"`   // late regions are filled in reverse order of allocation
+	CoTenant int    `json:"co_tenant"` // 0 off, 1 keep, 2 free again
+	PayPow2  bool   `json:"pay_pow2"`  // WriteBinary payloads live in buffers of power-of-two capacity
+	RichSink bool   `json:"sink_has_WriteString_ReadFrom,omitempty"`
 	SinkMode int    `json:"sink_mode,omitempty"` // how the sink fails: 0 (0,err); 1 (len,err); 2 (len/2, timeout error)
 	Warm     int    `json:"warm,omitempty"`      // (Malloc(1), Flush) cycles performed before the history starts (size-statistics ring wraps at 10)
 }
@@ -114,8 +115,8 @@ func (s *writerSys) Reset() {
 		s.expected = append([]byte(nil), s.target...)
 		s.pending = len(s.target)
 	} else {
-		s.sink = &EnvWriter{FailAt: s.cfg.FailAt, Mode: s.cfg.SinkMode}
-		dw := bufiox.NewDefaultWriter(s.sink)
+		s.sink = &EnvWriter{FailAt: s.cfg.FailAt, Mode: s.cfg.SinkMode, Rich: s.cfg.RichSink}
+		dw := bufiox.NewDefaultWriter(s.sink.Sink())
 		s.w, s.dw = dw, dw
 	}
 	s.warmWhat, s.warmSig = "", ""
